@@ -27,6 +27,7 @@ static long ev_index = 0;
 static long chg_at[8]; static int nchg = 0;
 static int last_kind[MAXP]; static long last_a[MAXP], last_b[MAXP];
 static __thread long tl_pnum = -1;
+static int s_P_req = 1;
 static __thread uint64_t tl_rng = 0;
 
 static uint64_t sm64(uint64_t *s) { uint64_t z = (*s += 0x9E3779B97F4A7C15ull); z = (z ^ (z >> 30)) * 0xBF58476D1CE4E5B9ull;
@@ -448,9 +449,11 @@ int ctl_mutex_wait_step(void)
     return 1;
 }
 
+int sched_current_P(void) { return s_P_req > 0 ? s_P_req : 1; }
+
 void sched_begin_factor(int P)
 {
-    s_P = P > MAXP ? MAXP : P;
+    s_P = P > MAXP ? MAXP : P; s_P_req = P;
     mon_reset();
     nreg = 0; nalive = 0; cur = -1; spin_run = 0; ev_index = 0; idle_rounds = 0; for (int t = 0; t < MAXP; ++t) blocked[t] = 0;
     s_rng = s_seed ^ 0xD1B54A32D192ED03ull;
